@@ -52,6 +52,14 @@ def gen_template(rng):
                                      {"name": "proj", "projected": {"sources": [{"serviceAccountToken": {"path": "t"}}]}}])]
     if rng.random() < 0.3:
         sp["terminationGracePeriodSeconds"] = rng.choice([0, 10, 30])
+    # int64 fields at the edge of what JSON numbers carry exactly (admitted by pod validation)
+    BIG = [9007199254740993, 9007199254740992, 9223372036854775807, 4611686018427387905, 2147483648]
+    if rng.random() < 0.12:
+        sp["terminationGracePeriodSeconds"] = rng.choice(BIG)
+    if rng.random() < 0.08:
+        sp.setdefault("securityContext", {})["runAsUser"] = rng.choice(BIG)
+    if rng.random() < 0.06:
+        sp["tolerations"] = [{"key": "k", "operator": "Exists", "effect": "NoExecute", "tolerationSeconds": rng.choice(BIG)}]
     if rng.random() < 0.2:
         sp["restartPolicy"] = "Always"
     if rng.random() < 0.2:
@@ -91,3 +99,16 @@ def mutate_template(rng, t):
     else:
         t2["metadata"]["labels"]["rev"] = "2"
     return t2
+
+
+def has_big_int(x):
+    """an integer above 2^53 somewhere in the template (not exactly representable as a float64 JSON number)"""
+    if isinstance(x, bool):
+        return False
+    if isinstance(x, int):
+        return abs(x) > 2 ** 53
+    if isinstance(x, dict):
+        return any(has_big_int(v) for v in x.values())
+    if isinstance(x, list):
+        return any(has_big_int(v) for v in x)
+    return False
